@@ -148,6 +148,29 @@ fn well_formed(h: &[Op]) -> bool {
     true
 }
 
+thread_local! {
+    static RT: tokio::runtime::Runtime = tokio::runtime::Builder::new_current_thread().build().expect("runtime");
+}
+/// Installs `ts` as the runtime-wide time source of this thread's runtime and enters the runtime;
+/// with `rejected_second` a second install (another clock) is attempted and must panic without
+/// replacing the first.
+fn runtime_route(ts: TimeSource, rejected_second: bool) -> (tokio::runtime::EnterGuard<'static>, metrique_timesource::tokio::RuntimeTimeSourceGuard) {
+    RT.with(|rt| {
+        // the runtime lives as long as the thread: extend the borrow for the guards
+        let rt: &'static tokio::runtime::Runtime = unsafe { &*(rt as *const tokio::runtime::Runtime) };
+        let enter = rt.enter();
+        let g = metrique_timesource::tokio::set_time_source_for_runtime(rt.handle(), ts);
+        if rejected_second {
+            let decoy = ManuallyAdvancedTimeSource::at_time(UNIX_EPOCH + Duration::from_secs(77_000_000));
+            let r = std::panic::catch_unwind(std::panic::AssertUnwindSafe(|| {
+                metrique_timesource::tokio::set_time_source_for_runtime(rt.handle(), TimeSource::custom(decoy))
+            }));
+            assert!(r.is_err(), "a second runtime time source must be refused");
+        }
+        (enter, g)
+    })
+}
+
 /// How the time source reaches the stopwatch.
 #[derive(Clone, Copy, PartialEq, Eq, Debug)]
 pub enum Inject {
@@ -160,6 +183,10 @@ pub enum Inject {
     /// `set_time_source(ts)` kept; an inner override with another clock begins and ends before
     /// `Stopwatch::new()` (the outer one must be in force again, also for later borrowed guards)
     ThreadLocalNested,
+    /// runtime-wide time source of the entered tokio runtime, kept
+    RuntimeHeld,
+    /// the same after a second install on that runtime was refused (it panics)
+    RuntimeAfterRejectedInstall,
 }
 impl Inject {
     pub fn name(self) -> &'static str {
@@ -168,10 +195,12 @@ impl Inject {
             Inject::ThreadLocalHeld => "thread-local-held:new",
             Inject::ThreadLocalDropped => "thread-local-dropped:default",
             Inject::ThreadLocalNested => "thread-local-outer-after-inner-override-ended:new",
+            Inject::RuntimeHeld => "tokio-runtime-wide:new",
+            Inject::RuntimeAfterRejectedInstall => "tokio-runtime-wide-after-refused-second-install:new",
         }
     }
     pub fn parse(s: &str) -> Option<Inject> {
-        [Inject::Explicit, Inject::ThreadLocalHeld, Inject::ThreadLocalDropped, Inject::ThreadLocalNested].into_iter().find(|i| i.name() == s)
+        [Inject::Explicit, Inject::ThreadLocalHeld, Inject::ThreadLocalDropped, Inject::ThreadLocalNested, Inject::RuntimeHeld, Inject::RuntimeAfterRejectedInstall].into_iter().find(|i| i.name() == s)
     }
 }
 
@@ -234,7 +263,12 @@ pub fn exec(history: &[Op], inj: Inject, recs: &mut Vec<(usize, Rec)>) {
     let mut clock = Clock { handle: ManuallyAdvancedTimeSource::at_time(wall), wall };
     let ts = TimeSource::custom(clock.handle.clone());
     let mut tl_guard = None;
+    let mut rt_guards = None;
     let mut sw = match inj {
+        Inject::RuntimeHeld | Inject::RuntimeAfterRejectedInstall => {
+            rt_guards = Some(runtime_route(ts, inj == Inject::RuntimeAfterRejectedInstall));
+            Stopwatch::new()
+        }
         Inject::Explicit => Stopwatch::new_from_timesource(ts),
         Inject::ThreadLocalHeld => {
             tl_guard = Some(set_time_source(ts));
@@ -632,7 +666,7 @@ pub fn run(rep: &mut Report) -> Summary {
     // depth 10 = 944 M in ~80 s (VERIF_C18_DEPTH overrides, for measuring only)
     let depth: usize = std::env::var("VERIF_C18_DEPTH").ok().and_then(|s| s.parse().ok()).unwrap_or(rep.tier.pick(8, 10));
     // the thread-local injection routes are searched two levels less deep
-    let plans = [(Inject::Explicit, depth), (Inject::ThreadLocalHeld, depth - 2), (Inject::ThreadLocalDropped, depth - 2), (Inject::ThreadLocalNested, depth - 3)];
+    let plans = [(Inject::Explicit, depth), (Inject::ThreadLocalHeld, depth - 2), (Inject::ThreadLocalDropped, depth - 2), (Inject::ThreadLocalNested, depth - 3), (Inject::RuntimeHeld, depth - 3), (Inject::RuntimeAfterRejectedInstall, depth - 3)];
     let mut total = St::default();
     let mut per_route = Vec::new();
     for (inj, d) in plans {
